@@ -342,6 +342,26 @@ def cons_list(cons):
     return [cons] if isinstance(cons, dict) else list(cons)
 
 
+def last_call_check(calls, deps):
+    """exact, tolerance-free form of the history theorem on a recorded run: the LAST optimiser run of every function
+    returned the parameters the function now holds, and it read the parameters its conditioners now hold"""
+    out = []
+    for f in deps:
+        mine = [c for c in calls if c["func"] is f and "popt" in c]
+        if not mine:
+            continue
+        c = mine[-1]
+        now = tuple(float(v) for v in f.parameters.values())
+        env_now = [tuple(float(v) for v in d.parameters.values()) for d in f.dependent_parameters.values()]
+        if len(c["popt"]) != len(now):
+            continue                    # some parameters are held fixed by equal bounds: scipy saw only the free ones
+        if tuple(c["popt"]) != now:
+            out.append((f, "holds %r but its last optimiser run returned %r" % (now, c["popt"])))
+        elif c["env"] != env_now:
+            out.append((f, "its last optimiser run read the conditioner parameters %r, the conditioners now hold %r" % (c["env"], env_now)))
+    return out
+
+
 def dep_order_oracle(DP, obs, case):
     """each function that was given data and whose conditioners were all given data must be a fit of its
     LAST data against the FINAL parameters of its conditioners: the residual cannot be improved (beyond
@@ -352,6 +372,8 @@ def dep_order_oracle(DP, obs, case):
     for (j, t), d in zip(case["ops"], obs["data"]):
         last[j] = d
     out = []
+    for f, why in last_call_check(obs["calls"], deps):
+        out.append(("stale", deps.index(f), why))
     extras = case.get("extras") or [None] * n
     ready = {}
     for j in range(n):              # creation order is a topological order
@@ -734,6 +756,8 @@ def chain_cases(thorough):
             out.append({"ctbl": ctbl, "calls": list(order), "refit": None})
             for rj in (range(n) if thorough else [0, n - 1]):
                 out.append({"ctbl": ctbl, "calls": list(order) + [rj], "refit": rj})
+            # a complete second round with the dependents handed their new data BEFORE their conditioners
+            out.append({"ctbl": ctbl, "calls": list(order) + list(range(n))[::-1], "refit": "reverse"})
         if thorough:
             for order in itertools.permutations(range(n)):
                 for order2 in itertools.permutations(range(n)):
@@ -799,11 +823,11 @@ def synth_v_hs(n, seed):
     return np.c_[v, (0.4 + 0.03 * v ** 1.8) * r.weibull(2.0, n) + 0.05]
 
 
-def polish_gap(dep):
+def polish_gap(dep, x, y):
     """relative improvement of the (weighted) squared residual that scipy still finds when started AT the fitted parameters
     of `dep` with the CURRENT parameters of its conditioners (0 = the stored parameters are a fit against them)"""
     from scipy.optimize import curve_fit
-    x, y = np.asarray(dep.x, dtype=float), np.asarray(dep.y, dtype=float)
+    x, y = np.asarray(x, dtype=float), np.asarray(y, dtype=float)
     p = np.array([float(v) for v in dep.parameters.values()])
     sig = dep.weights(x, y) if dep.weights is not None else None
     lo = [(-np.inf if b[0] is None else b[0]) for b in dep.bounds]
@@ -813,7 +837,7 @@ def polish_gap(dep):
     return (s0 - s1) / max(s0, 1e-300), s0
 
 
-def model_chain_check(ctx, virocon, rng, n):
+def model_chain_check(ctx, virocon, rng, n, F=None):
     """get_OMAE2020_V_Hs: alpha(x) uses the fitted beta(x) as a parameter and is declared (and handed its data) BEFORE beta.
     Whole-model fit and re-fit, the `parameters` dict in both orders: alpha must be a fit against the FINAL beta, the
     declaration order must not matter at all, and a re-fitted model must agree with a fresh model fitted to the second data."""
@@ -830,17 +854,24 @@ def model_chain_check(ctx, virocon, rng, n):
     for it in range(n):
         seed = rng.randrange(1 << 30)
         A, B = synth_v_hs(3000, seed), synth_v_hs(2500, seed + 1)
+        import virocon._fitting as FF
         try:
-            m1, fd1 = make(["alpha", "beta"])
-            m2, fd2 = make(["beta", "alpha"])
-            m3, fd3 = make(["alpha", "beta"])
-            m1.fit(A, fd1)
-            m2.fit(A, fd2)
-            m1.fit(B, fd1)          # re-fit: alpha is first fitted against the OLD beta, then again after beta
-            m3.fit(B, fd3)
+            with Rec(FF, "real") as rec:
+                m1, fd1 = make(["alpha", "beta"])
+                m2, fd2 = make(["beta", "alpha"])
+                m3, fd3 = make(["alpha", "beta"])
+                m1.fit(A, fd1)
+                m2.fit(A, fd2)
+                m1.fit(B, fd1)          # re-fit: alpha is first fitted against the OLD beta, then again after beta
+                m3.fit(B, fd3)
         except RuntimeError:
             stat["unjudgeable"] += 1
             continue
+        for nm, m in (("fit(A); fit(B)", m1), ("parameters declared (beta, alpha)", m2), ("fresh", m3)):
+            fs = list(m.distributions[1].conditional_parameters.values())
+            for f, why in last_call_check(rec.calls, fs):
+                ctx.violation({"clause": "dependency-order", "site": "GlobalHierarchicalModel.fit"},
+                              "get_OMAE2020_V_Hs (%s): %r %s" % (nm, f, why), {"kind": "model-chain", "seed": seed})
         ctx.count(("model-chain", seed), True)
         stat["judged"] += 1
         rep = {"kind": "model-chain", "seed": seed}
@@ -852,31 +883,27 @@ def model_chain_check(ctx, virocon, rng, n):
                           "get_OMAE2020_V_Hs fitted with parameters declared as (alpha, beta) gives %r, as (beta, alpha) %r" % (params(m4), params(m2)), rep)
         for nm, m in (("re-fitted", m1), ("fresh", m3), ("fresh, other declaration order", m2)):
             for pn, f in m.distributions[1].conditional_parameters.items():
+                mine = [c for c in rec.calls if c["func"] is f]
+                if not mine:
+                    continue
                 try:
-                    gap, s0 = polish_gap(f)
+                    gap, s0 = polish_gap(f, mine[-1]["x"], mine[-1]["y"])
                 except (RuntimeError, ValueError):
                     continue
-                stat["max_polish_gap"] = max(stat["max_polish_gap"], gap)
-                if gap > 1e-4:
-                    ctx.violation({"clause": "dependency-order", "site": "GlobalHierarchicalModel.fit", "function": pn},
-                                  "get_OMAE2020_V_Hs (%s): dependence function of %s is not a fit against the final parameters of its conditioner: "
-                                  "scipy started at the stored parameters %r still lowers the residual %.6g by %.3g (relative)"
-                                  % (nm, pn, [float(v) for v in f.parameters.values()], s0, gap), rep)
+                stat["max_polish_gap"] = max(stat["max_polish_gap"], gap)      # optimiser quality (oracle): reported, not judged
         # re-fit vs fresh (different start values): same residuals within optimiser tolerance
         for pn in ("alpha", "beta"):
             f1, f3 = m1.distributions[1].conditional_parameters[pn], m3.distributions[1].conditional_parameters[pn]
-            x, y = np.asarray(f3.x, dtype=float), np.asarray(f3.y, dtype=float)
+            mine = [c for c in rec.calls if c["func"] is f3]
+            if not mine:
+                continue
+            x, y = np.asarray(mine[-1]["x"], dtype=float), np.asarray(mine[-1]["y"], dtype=float)
             sig = f3.weights(x, y) if f3.weights is not None else None
             s1, s3 = ssr(f1, x, y, [float(v) for v in f1.parameters.values()], sig), ssr(f3, x, y, [float(v) for v in f3.parameters.values()], sig)
             d = abs(s1 - s3) / max(s1, s3, 1e-300)
             stat["max_refit_vs_fresh"] = max(stat["max_refit_vs_fresh"], d)
-            if d > 1e-3:
-                g1, g3 = polish_gap(f1)[0], polish_gap(f3)[0]
-                if max(g1, g3) > 1e-4:      # otherwise two local optima of a non-convex shape: optimiser, not protocol
-                    ctx.violation({"clause": "order-independence", "site": "GlobalHierarchicalModel.fit", "function": pn},
-                                  "get_OMAE2020_V_Hs: %s after fit(A); fit(B) has residual %.6g, a fresh model fitted to B %.6g" % (pn, s1, s3), rep)
-                else:
-                    stat["unjudgeable"] += 1
+            if d > 1e-3:        # different start values, non-convex shape: two optimiser end points, not a protocol matter
+                stat["unjudgeable"] += 1
     ctx.notes["predefined_chain_through_model"] = stat
 
 
@@ -1100,7 +1127,7 @@ def run(ctx):
         if found >= 8:
             break
     # 2. dependency order on suspects (real optimiser), then the stale cases seen in the stream
-    for c in suspects_protocol[:40]:
+    for c in suspects_protocol[:200]:
         case = {"ctbl": c["ctbl"], "ops": [tuple(o) for o in c["ops"]], "seed": c["seed"], "swap_kw": c.get("swap_kw"),
                 "bounds": c.get("bounds"), "extras": c.get("extras")}
         obs = run_protocol(DP, F, case, "real")
